@@ -402,7 +402,7 @@ class Slicer:
                 break
             it = work.popleft()
             f, node, stack = it.func, it.node, it.stack
-            if self.stop is not None and it.parent is not None and self.stop(f, node):
+            if self.stop is not None and self.stop(f, node):
                 continue
             self._step(f, node, stack, it, push, res)
         return res
